@@ -14,7 +14,7 @@ search():     the property itself on the real code only (no model): recipients w
 import math, json, numpy as np
 from fractions import Fraction
 from harness.props import c20_impl as I
-from harness.props.c20_impl import frac, fr_s, lst, STATES
+from harness.props.c20_impl import frac, fr_s, lst, STATES, all_states, state_code, flag_key, diseases_of
 
 PROP = 'C20'
 GENERATED = ['DeliveryConsts']
@@ -34,9 +34,9 @@ TOL = 1e-9
 
 def facts_of(ctx):
     f = (ctx.extracted.get('DeliveryConsts') or {}).get('facts') or {}
-    return dict(thr=f.get('adj_threshold', '1'), fine=f.get('adj_fine_sub', 1), coarse=f.get('adj_coarse', 1), vpt=f.get('vec_per_timepoint', False),
-                g_screen=f.get('gate_screening_on_ti', True), g_triage=f.get('gate_triage_on_ti', False),
-                g_vx=f.get('gate_vaccination_on_ti', True), hioff=f.get('cap_slice_offset', 0))
+    return dict(thr=f.get('adj_threshold', '1'), fine=f.get('adj_fine_sub', 1), coarse=f.get('adj_coarse', 0), vpt=f.get('vec_per_timepoint', True),
+                g_screen=f.get('gate_screening_kind', 'simTi'), g_triage=f.get('gate_triage_kind', 'timeObj'),
+                g_vx=f.get('gate_vaccination_kind', 'simTi'), hioff=f.get('cap_slice_offset', 0))
 
 
 # ---------------------------------------------------------------------------
@@ -56,50 +56,56 @@ def sched_line(case, facts):
     return ' '.join(['campaign', lst(g, fr_s), lst([frac(y) for y in s['years']], fr_s), lst([frac(p) for p in s['prob']], fr_s)])
 
 
-def state_index(disease, st):
-    return STATES[disease].index(st)
-
-
 def draws_s(d, uids):
     return lst([(u, d[u]) for u in uids if u in d], lambda p: f'{p[0]}:{p[1]}')
 
 
+GATE_TOKEN = dict(simTi='ti', ownTi='own', timeObj='t')
+
+
 def case_lines(case, res, facts):
     """ -> (lines, expect) where expect[i] describes what to compare line i's answer with """
-    kind = case['kind']; disease = case['sim']['disease']
+    kind = case['kind']; simc = case['sim']
     lines = ['reset']; exp = [('ok',)]
-    gate = dict(vx=facts['g_vx'], screen=facts['g_screen'], triage=facts['g_triage']).get(kind, True)
-    lines.append('gate ' + ('ti' if gate else 't')); exp.append(('ok',))
+    gate = dict(vx=facts['g_vx'], screen=facts['g_screen'], triage=facts['g_triage']).get(kind, 'simTi')
+    lines.append('gate ' + GATE_TOKEN[gate]); exp.append(('ok',))
     lines.append(f"hioff {facts['hioff']}"); exp.append(('ok',))
     lines.append(f"hascov {int(case.get('delivery') != 'campaign')}"); exp.append(('ok',))
+    lines.append(f"reslen {res['own_npts'] if kind == 'screen' and res.get('own_npts') is not None else 'none'}"); exp.append(('ok',))
     if kind != 'treat':
         lines.append(sched_line(case, facts)); exp.append(('sched',))
         if res['init_err']:
             return lines, exp
     if kind in ('screen', 'triage'):
         dx = case['dx']
-        lines.append(f"dx {len(dx['hierarchy'])} {lst([state_index(disease, st) for st, _ in dx['rows']])}"); exp.append(('ok',))
+        lines.append(f"dx {len(dx['hierarchy'])} {lst([state_code(simc, d, st) for d, st, _ in dx['rows']])}"); exp.append(('ok',))
     if kind == 'treat':
+        lines.append('clear ' + (str(state_code(simc, 'syphilis', 'infected')) if case.get('syph') else 'none')); exp.append(('ok',))
         tx = case['tx']
-        lines.append('tx ' + lst(tx['rows'], lambda r: f"{state_index(disease, r[0])}:{fr_s(frac(r[1]))}:{state_index(disease, r[2])}")); exp.append(('ok',))
+        lines.append('tx ' + lst(tx['rows'], lambda r: f"{state_code(simc, r[0], r[1])}:{fr_s(frac(r[2]))}:{state_code(simc, r[0], r[3])}")); exp.append(('ok',))
     prev_rs = None
     for k, e in enumerate(res['log']):
         pre = e['pre']
-        for si, st in enumerate(STATES[disease]):
-            lines.append(f"flags {si} {lst(pre['flags'][st])}"); exp.append(('ok',))
+        for d, st in all_states(simc):
+            lines.append(f"flags {state_code(simc, d, st)} {lst(pre['flags'][flag_key(d, st)])}"); exp.append(('ok',))
         ek, el = pre['elig']
         active = pre['active']
         us = sorted(set(active) | set(el if ek == 'uids' else []))
+        clock = f"{pre['ti']} {pre['own_ti']}"
         if kind == 'vx':
-            base = prev_rs if prev_rs is not None else np.ones(len(pre['rs']))
+            base = np.ones(len(pre['rs']))
+            if prev_rs is not None:
+                m = min(len(prev_rs), len(base)); base[:m] = prev_rs[:m]
             ch = [u for u in range(len(pre['rs'])) if abs(pre['rs'][u] - base[u]) > 1e-7]
             if ch:
                 lines.append('setrs ' + lst(ch, lambda u: f"{u}:{fr_s(Fraction(float(pre['rs'][u])))}")); exp.append(('ok',))
             v = case['vaccine']
             fails = []
-            if 'post' in e and v['kind'] == 'aon' and 0 < v['efficacy'] < 1:
-                fails = [u for u in (e['ret'] or []) if pre['rs'][u] != 0 and e['post']['rs'][u] == pre['rs'][u]]
-            lines.append(' '.join(['vx', v['kind'], fr_s(frac(v['efficacy'])), lst(fails), str(pre['ti']), lst(active), ek, lst(el), draws_s(pre['draws'], us)]))
+            if v['kind'] == 'aon' and 0 < v['efficacy'] < 1:
+                # reference variates of np.random.binomial(1, 1-eff, len(accepted)) from the saved global state, by position
+                ref = I.ref_binomial(pre['np_state'], 1 - v['efficacy'], len(us))
+                fails = [i for i, x in enumerate(ref) if x == 1]
+            lines.append(' '.join(['vx', v['kind'], fr_s(frac(v['efficacy'])), lst(fails), clock, lst(active), ek, lst(el), draws_s(pre['draws'], us)]))
             exp.append(('vx', k))
             if 'post' in e: prev_rs = e['post']['rs']
         elif kind in ('screen', 'triage'):
@@ -109,17 +115,18 @@ def case_lines(case, res, facts):
                 obs = {}
                 for ri, name in enumerate(hier):
                     for u in e['post']['out'].get(name, []): obs[u] = ri
-                for bi, (st, probs) in enumerate(case['dx']['rows']):
-                    inst = set(pre['flags'][st])
+                aset = set(active)
+                for bi, (d, st, probs) in enumerate(case['dx']['rows']):
+                    inst = set(pre['flags'][flag_key(d, st)])
                     det = [i for i, p in enumerate(probs) if p == 1.0]
                     for u in (e['ret'] or []):
-                        if u in inst and u in set(active):
+                        if u in inst and u in aset:
                             picks.append((bi, u, det[0] if det else obs.get(u, len(hier) - 1)))
-            lines.append(' '.join([kind, str(pre['ti']), lst(active), ek, lst(el), draws_s(pre['draws'], us), lst(picks, lambda p: f'{p[0]}:{p[1]}:{p[2]}')]))
+            lines.append(' '.join([kind, clock, lst(active), ek, lst(el), draws_s(pre['draws'], us), lst(picks, lambda p: f'{p[0]}:{p[1]}:{p[2]}')]))
             exp.append((kind, k))
         else:
             nb = len(case['tx']['rows'])
-            ed = I.eff_draws(pre['eff_seed'], pre['eff_ind'], nb, res['slots'], active)
+            ed = I.eff_draws(pre['eff_seed'], pre['eff_ind'], nb, pre['slots'], active)
             cap = case['capacity']
             lines.append(' '.join(['treat', 'none' if cap is None else str(cap), fr_s(frac(case['treat_prob'])), lst(active), ek, lst(el),
                                    draws_s(pre['draws'], us), lst(sorted(ed.items()), lambda kv: f'{kv[0][0]}:{kv[0][1]}:{kv[1]}')]))
@@ -156,7 +163,8 @@ def near_threshold(pre, p, uids, p2=None):
 
 def compare_case(ctx, case, res, lines, exp, out):
     """ first divergence between the model's answers and the observations, or None """
-    kind = case['kind']; disease = case['sim']['disease']
+    kind = case['kind']; simc = case['sim']
+    code2key = {state_code(simc, d, st): flag_key(d, st) for d, st in all_states(simc)}
     step_p = None; tps = None
     for i, (ln, ex, ml) in enumerate(zip(lines, exp, out)):
         def div(why, **kw):
@@ -257,9 +265,9 @@ def compare_case(ctx, case, res, lines, exp, out):
                 return div(f"outcomes after ti={pre['ti']}: impl={post['out']} model succ={m['succ']} unsucc={m['unsucc']}")
             mf = {int(a): sorted(plist(b)) for a, b in (x.split('=') for x in m['flags'].split('|'))} if m.get('flags') else {}
             for si, us in mf.items():
-                st = STATES[disease][si]
+                st = code2key[si]
                 if us != post['flags'][st]:
-                    return div(f"{disease}.{st} after the treatment step at ti={pre['ti']}: impl={post['flags'][st]} model={us}")
+                    return div(f"{st} after the treatment step at ti={pre['ti']}: impl={post['flags'][st]} model={us}")
     return None
 
 
@@ -284,11 +292,11 @@ def runtime_crosscheck(ctx, facts):
 def correspond(ctx):
     facts = facts_of(ctx)
     runtime_crosscheck(ctx, facts)
-    ncases = ctx.budget(56, 400)
+    ncases = ctx.budget(48, 400)
     kinds = ['vx', 'vx', 'screen', 'triage', 'treat', 'vx', 'screen', 'treat']
     all_lines = []; per = []
-    for k in range(ncases):
-        case = I.gen_case(ctx.rng, kinds[k % len(kinds)])
+    cases = I.fixed_cases() + [I.gen_case(ctx.rng, kinds[k % len(kinds)]) for k in range(ncases)]
+    for case in cases:
         try:
             res = I.run_case(case)
         except Exception as e:
@@ -324,10 +332,11 @@ def correspond(ctx):
 # ---------------------------------------------------------------------------
 # oracle on the real code
 
-def expected_step_prob(case, res, ti):
+def expected_step_prob(case, res, ti, dt=None):
     """ The configured per-step coverage at step ti, computed from the CASE (not from the intervention's vectors).
         None = outside the configured schedule. """
-    s = case['sched']; simc = case['sim']; yv = res['yearvec']; dt = simc['dt']
+    s = case['sched']; simc = case['sim']; yv = res['yearvec']
+    dt = simc['dt'] * case.get('own_dt', 1) if dt is None else dt      # the intervention's own step
     if case['delivery'] == 'campaign':
         pts = [int(np.argmin(np.abs(np.array(yv) - y))) for y in s['years']]
         if ti not in pts: return None
@@ -367,9 +376,12 @@ def oracle_case(case, res=None):
     res = res if res is not None else I.run_case(case)
     if res['init_err']:
         return fails
-    kind = case['kind']; disease = case['sim']['disease']; dt = case['sim']['dt']
+    kind = case['kind']; simc = case['sim']; dt = simc['dt']
     deliv = case.get('delivery')
     base = dict(kind=kind, delivery=deliv)
+    # (derived states such as Syphilis.naive / sus_not_naive are functions of the stored ones: not separately checked)
+    keys = [flag_key(d, st) for d, st in all_states(simc) if flag_key(d, st) not in ('syphilis.naive', 'syphilis.sus_not_naive')]
+    own = case.get('own_dt', 1) != 1
 
     def fail(sig, what, ti):
         s = dict(base); s.update(sig)
@@ -382,17 +394,16 @@ def oracle_case(case, res=None):
         elig = set(I.elig_set(ek, el, pre['active']))
         # infections among fully protected recipients (checked at every snapshot)
         if protected:
-            inf = set(pre['flags']['infected'])
+            inf = set(pre['flags']['sir.infected'])
             bad = sorted(u for u in protected if u in inf)
             if bad:
                 fail(dict(oracle='protected-infected'), f"agent(s) {bad[:5]} received a fully effective vaccine at ti={protected[bad[0]]} while susceptible and are infected at ti={ti}", ti)
                 for u in bad: protected.pop(u)
         if 'err' in e:
             w = window_excess(case, res, ti) if kind != 'treat' else None
-            sig = dict(oracle='crash', exc=e['err'])
+            sig = dict(oracle='crash', exc=e['err'], own_dt=own)
             if w: sig.update(side=w[0], steps_past=w[1], dt_ge_1=bool(dt >= 1))
-            elif kind in ('screen', 'triage') and deliv == 'campaign' and e['err'] == 'AttributeError':
-                continue       # campaign_screening / campaign_triage have no coverage_dist: nothing is ever delivered (noted, vacuous)
+            else: sig.update(scheduled=True)
             fail(sig, f"{kind}/{deliv} step at ti={ti} (year {res['yearvec'][ti]}) raised {e['err']}: {e.get('msg')}", ti)
             continue
         post = e['post']; rec = set(e['ret'] or [])
@@ -423,18 +434,26 @@ def oracle_case(case, res=None):
             if rec:
                 w = window_excess(case, res, ti)
                 if w:
-                    fail(dict(oracle='window', side=w[0], steps_past=w[1], dt_ge_1=bool(dt >= 1)),
+                    sy0 = case['sched'].get('start_year', (case['sched'].get('years') or [simc['start']])[0]) if deliv == 'routine' else None
+                    near = bool(sy0 is not None and w[0] == 'before-start' and abs(res['yearvec'][ti] - sy0) <= 1e-6 + 1e-5 * abs(sy0))
+                    fail(dict(oracle='window', side=w[0], steps_past=w[1], dt_ge_1=bool(dt >= 1), isclose_start=near),
                          f"{deliv} {kind}: {len(rec)} agent(s) received the product at ti={ti} (year {res['yearvec'][ti]}), {w[1]} step(s) {w[0]} of the configured schedule {case['sched']} with dt={dt}", ti)
             p = expected_step_prob(case, res, ti)
-            if p is not None and not (kind == 'triage'):
+            if p is not None:
                 lo, hi = p if isinstance(p, tuple) else (p, p)
                 p = lo
                 want = {u for u in elig if u in pre['draws'] and pre['draws'][u] / 2 ** 53 < p}
                 near = {u for u in elig if u in pre['draws'] and lo - 1e-9 < pre['draws'][u] / 2 ** 53 < hi + 1e-9}
                 tail = deliv == 'routine' and not rec and res['yearvec'][ti] > res['end_year'] + 1e-9
                 # (the steps after end_year but inside the end year may deliver or not: the property bounds delivery from above only)
-                if (want ^ rec) - near and not (rec - elig) and not tail:
-                    fail(dict(oracle='coverage'), f"ti={ti}: configured per-step coverage {p:.6g} (dt={dt}) accepts {len(want)} of {len(elig)} eligible agents on the reference draws, but {len(rec)} received the product", ti)
+                if pre['draws'] and (want ^ rec) - near and not (rec - elig) and not tail:
+                    sig = dict(oracle='coverage', delivered_none=not rec, own_dt=own)
+                    if own:
+                        # does the observed acceptance equal the coverage converted with the SIM's step instead of the intervention's own?
+                        ps = expected_step_prob(case, res, ti, dt=dt)
+                        ps = ps[0] if isinstance(ps, tuple) else ps
+                        sig['matches_sim_dt'] = bool(ps is not None and rec == {u for u in elig if u in pre['draws'] and pre['draws'][u] / 2 ** 53 < ps})
+                    fail(sig, f"ti={ti}: configured per-step coverage {p:.6g} (sim dt={dt}, own step {dt * case.get('own_dt', 1)}) accepts {len(want)} of {len(elig)} eligible agents on the reference draws, but {len(rec)} received the product", ti)
         # effects
         if kind == 'vx':
             v = case['vaccine']
@@ -446,18 +465,23 @@ def oracle_case(case, res=None):
                 else:
                     if v['kind'] == 'leaky': want = [a * (1 - v['efficacy'])]
                     elif v['kind'] == 'inert': want = [a]
-                    else: want = [0.0] if v['efficacy'] >= 1 else ([a] if v['efficacy'] <= 0 else [0.0, a])
+                    elif v['efficacy'] >= 1: want = [0.0]
+                    elif v['efficacy'] <= 0: want = [a]
+                    else:
+                        srec = sorted(rec)
+                        ref = I.ref_binomial(pre['np_state'], 1 - v['efficacy'], len(srec))
+                        want = [a * ref[srec.index(u)]]
                     if not any(abs(b - w) <= 1e-5 * max(1, abs(w)) for w in want):
                         fail(dict(oracle='effect', field='rel_sus'), f"ti={ti}: rel_sus of recipient {u} is {b}, expected one of {want}", ti); break
             if v['kind'] in ('leaky', 'aon') and v['efficacy'] >= 1:
-                sus = set(pre['flags']['susceptible'])
+                sus = set(pre['flags']['sir.susceptible'])
                 for u in rec:
                     if u in sus and u in active: protected.setdefault(u, ti)
-            for st in STATES[disease]:
+            for st in keys:
                 if pre['flags'][st] != post['flags'][st]:
                     fail(dict(oracle='confined', field=st), f"ti={ti}: vaccination changed the disease state `{st}`", ti)
         elif kind in ('screen', 'triage'):
-            for st in STATES[disease]:
+            for st in keys:
                 if pre['flags'][st] != post['flags'][st]:
                     fail(dict(oracle='confined', field=st), f"ti={ti}: a diagnostic changed the disease state `{st}`", ti)
             if np.any(pre['rs'] != post['rs']):
@@ -478,36 +502,31 @@ def oracle_case(case, res=None):
             if rec and set(post['out']['successful']) | set(post['out']['unsuccessful']) != rec:
                 fail(dict(oracle='outcomes'), f"ti={ti}: treatment outcomes do not list exactly the treated agents", ti)
             # state changes only on recipients, as the table says
-            rows = case['tx']['rows']
-            for st in STATES[disease]:
+            rows = [(flag_key(d, st), eff, flag_key(d, post)) for d, st, eff, post in case['tx']['rows']]
+            for st in keys:
                 a, b = set(pre['flags'][st]), set(post['flags'][st])
                 ch = a ^ b
                 if ch - rec:
                     fail(dict(oracle='confined', field=st), f"ti={ti}: state `{st}` of non-treated agent(s) {sorted(ch - rec)[:6]} changed during the treatment step", ti)
             succ = set(post['out']['successful']) if rec else set()
+            cleared = 'syphilis.infected' if case.get('syph') else None     # syph_treatment: infected[treated] = False
+            if cleared and rec & set(post['flags'][cleared]):
+                fail(dict(oracle='effect', field=cleared), f"ti={ti}: treated agent(s) {sorted(rec & set(post['flags'][cleared]))[:6]} are still `infected` after syph_treatment", ti)
             for u in rec:
-                was = [st for st in STATES[disease] if u in set(pre['flags'][st])]
-                now = [st for st in STATES[disease] if u in set(post['flags'][st])]
-                if u in succ:
-                    # blocks are applied in table order, each to the agents in its state at that moment
-                    poss = {frozenset(was)}
-                    for r in rows:
-                        nxt = set()
-                        for cur in poss:
-                            if r[0] in cur and u in active:
-                                if r[1] > 0: nxt.add(frozenset((cur - {r[0]}) | {r[2]}))
-                                if r[1] < 1: nxt.add(cur)
-                            else: nxt.add(cur)
-                        poss = nxt
-                    if frozenset(now) not in poss or (frozenset(now) == frozenset(was) and not any(r[0] in was and r[0] == r[2] for r in rows)):
-                        fail(dict(oracle='effect', field='state'), f"ti={ti}: successfully treated agent {u} went {was} -> {now}, not what the product table {rows} allows", ti)
-                elif was != now:
-                    fail(dict(oracle='effect', field='state'), f"ti={ti}: unsuccessfully treated agent {u} changed state {was} -> {now}", ti)
+                was = [st for st in keys if u in set(pre['flags'][st]) and st != cleared]
+                now = [st for st in keys if u in set(post['flags'][st]) and st != cleared]
+                # blocks are applied in table order (disease by disease), each to the agents in its state at that moment
+                poss = {(frozenset(was), False)}
                 for r in rows:
-                    if r[1] >= 1 and r[0] in was and u in active and u not in succ and len([x for x in rows if x[0] in was]) == 1:
-                        fail(dict(oracle='effect', field='efficacy'), f"ti={ti}: agent {u} in state {r[0]} was treated with efficacy 1 but not cured", ti)
-                    if r[1] <= 0 and r[0] in was and u in succ and len([x for x in rows if x[0] in was]) == 1:
-                        fail(dict(oracle='effect', field='efficacy'), f"ti={ti}: agent {u} in state {r[0]} was cured by a treatment of efficacy 0", ti)
+                    nxt = set()
+                    for cur, ok in poss:
+                        if r[0] in cur and u in active:
+                            if r[1] > 0: nxt.add((frozenset((cur - {r[0]}) | {r[2]}), True))
+                            if r[1] < 1: nxt.add((cur, ok))
+                        else: nxt.add((cur, ok))
+                    poss = nxt
+                if (frozenset(now), u in succ) not in poss:
+                    fail(dict(oracle='effect', field='state'), f"ti={ti}: treated agent {u} ({'successful' if u in succ else 'unsuccessful'}) went {was} -> {now}, not what the product table {case['tx']['rows']} allows", ti)
     if res['run_err'] and not any('err' in e for e in res['log']):
         fail(dict(oracle='crash', exc=res['run_err'], where='outside-step'), f"the run raised {res['run_err']}: {res.get('run_msg')}", None)
     return fails
@@ -515,15 +534,16 @@ def oracle_case(case, res=None):
 
 def minimal_window_case():
     """ the stored witness of the known finding: window 2005-2010, dt = 1 -> delivery in 2011 """
-    return dict(kind='vx', delivery='routine', elig='none', vaccine=dict(kind='leaky', efficacy=1.0),
+    return dict(kind='vx', delivery='routine', own_dt=1, elig='none', vaccine=dict(kind='leaky', efficacy=1.0),
                 sim=dict(n_agents=40, start=2000, dur=15, dt=1.0, rand_seed=1, disease='sir', beta=0.2, init_prev=0.05, deaths=None),
                 sched=dict(start_year=2005, end_year=2010, prob=[0.5], annual_prob=True))
 
 
 def search(ctx):
-    n = ctx.budget(40, 320)
+    n = ctx.budget(32, 320)
     cases = [minimal_window_case(),
              dict(minimal_window_case(), sched=dict(years=[2005, 2006, 2007, 2008], prob=[0.1, 0.2, 0.4, 0.8], annual_prob=True))]
+    cases += I.fixed_cases()
     for kf in ctx.known:            # stored witnesses of the known findings are re-run on every run
         rp = kf.get('replay') or {}
         if isinstance(rp.get('case'), dict) and rp['case'] not in cases:
@@ -532,7 +552,7 @@ def search(ctx):
     for k in range(n):
         c = I.gen_case(ctx.rng, kinds[k % len(kinds)])
         # the oracle is about valid configurations with real delivery: bias towards high coverage and transmission
-        if c['kind'] == 'vx' and ctx.rng.random() < 0.5:
+        if c['kind'] == 'vx' and c['vaccine']['kind'] != 'inert' and ctx.rng.random() < 0.5:
             c['vaccine'] = dict(kind=ctx.rng.choice(['leaky', 'aon']), efficacy=1.0); c['sim']['beta'] = 1.5; c['elig'] = ctx.rng.choice(['susceptible', 'none', 'age_gt_30'])
         cases.append(c)
     # cases on which the correspondence diverged are examined first
